@@ -3,8 +3,12 @@ untouched.
 
 Explicit-state search over the real ``AuthenticationToken``: a state is the
 tuple of the five stored fields, a transition is one operation answered by one
-scripted reply of a local stand-in for the service.  Every transition is one
-call into pyCraft; the verdict comes from a small reference (a table of
+scripted reply of a local stand-in for the service (the reply alphabet
+includes complete error objects whose text is full of template
+metacharacters).  Two overlapping calls on one token (or on two tokens) are
+explored under all thread schedules within a preemption bound.  Every
+transition is one call into pyCraft; the verdict comes from a small reference
+(a table of
 endpoint / payload per operation and a classifier of reply bodies written from
 the wiki.vg "Authentication" page) that shares no code with pyCraft.
 """
@@ -21,6 +25,7 @@ import requests.adapters
 import urllib3.response
 
 from vf.runner import use_repo, ToolError
+from vf import explore, interleave
 
 LEVEL = 'model_checking'
 RULE = ('Breadth-first search to a fixpoint over token states (username, '
@@ -38,7 +43,17 @@ RULE = ('Breadth-first search to a fixpoint over token states (username, '
         'cause, only "error", only "errorMessage", object without error '
         'keys, {}, HTML, text, empty, JSON null / true / number / string / '
         'string containing both key names / [] / array containing both key '
-        'names; thorough adds truncated JSON and non-UTF-8 bytes}.  '
+        'names; thorough adds truncated JSON and non-UTF-8 bytes}; plus '
+        'complete error objects whose strings are text that template '
+        'engines trip over - 13 strings ("{0}", "{}", "{name}", a lone '
+        '"{", a lone "}", "%s", "%(x)s", "%", text with backslashes, text '
+        'with LF / CR LF / TAB, non-ASCII text (Cyrillic, CJK, Hebrew, a '
+        'non-BMP character), the empty string, a 2049-character string) x '
+        'position {error, errorMessage, cause} (the other two fields plain) '
+        '= 39 bodies x statuses {403, 500} (quick) / every status >= 400 of '
+        'the thorough list incl. the seed-derived codes (thorough), for '
+        'every operation and state like '
+        'any other reply: the fields must come back verbatim.  '
         '"Present" means a non-empty string, "absent" means None: the '
         'statement does not say whether an empty string counts as present '
         '(the code itself is inconsistent: truthiness for the tokens, "is '
@@ -55,7 +70,37 @@ RULE = ('Breadth-first search to a fixpoint over token states (username, '
         'states and length 3 from 4 start states (thorough) over 7 '
         'operations x 4 replies, are executed on ONE live token object and '
         'compared step by step (request, outcome, fields) with what a fresh '
-        'token carrying the same fields does.')
+        'token carrying the same fields does.  '
+        'CONCURRENT (vf.interleave: every source line of '
+        'minecraft/authentication.py a scheduling point, two agents, one '
+        'call each, the scripted reply the same for both, every request '
+        'attributed to the thread that made it): ALL schedules within the '
+        'preemption bound.  Quick: join(id1) || join(id2) on ONE shared '
+        'authenticated token answered by 204, <= 2 preemptions; the same '
+        'answered by 403 full error object, join(id1) || join(id2) on two '
+        'token objects with different credentials, join || validate and '
+        'join || invalidate on one token, <= 1 preemption each.  Thorough: '
+        'the first at <= 3, the others at <= 2, plus join || join with the '
+        'same id, join || join-b answered by 500 with a "{0}" error text, '
+        'two tokens answered by 403, join || sign_out, validate || '
+        'invalidate, validate || validate (403), invalidate || join (404 '
+        'JSON null), all <= 2.  Only operations that store nothing are '
+        'raced (with authenticate / refresh the expected payload of the '
+        'other call would depend on the schedule).  Each call is judged by '
+        'the same oracle as a sequential transition (its own request: '
+        'exactly one POST, endpoint, content type, documented payload '
+        'built from ITS argument and the token fields; its own outcome) '
+        'and must equal what the same call does alone (requests as JSON '
+        'values, outcome, the five stored fields).  This is where two '
+        'overlapping logins sharing one token are judged (the server hash '
+        'that reaches the session service is the serverId of the posted '
+        'body): it sits in C19 rather than C17 because C19 states "each '
+        'operation posts the documented JSON payload" - a per-call '
+        'obligation on AuthenticationToken, whose reference payload table '
+        'and HTTP stand-in live here - while C17 is about the value of the '
+        'hash for given inputs and observes the string handed to join().  '
+        'The schedule section runs only when the sequential sections '
+        'report nothing.')
 ASSUMPTIONS = [
     'documented endpoints/payloads are those of wiki.vg Authentication '
     '(authserver.mojang.com/{authenticate,refresh,validate,invalidate,'
@@ -79,6 +124,11 @@ ASSUMPTIONS = [
     'YggdrasilError are both accepted as the refusal',
     'the code under test reaches the network only through the module '
     'global `requests` of minecraft/authentication.py',
+    'concurrent section: a thread switch can happen between any two source '
+    'lines of minecraft/authentication.py (not inside a line, not inside '
+    'requests/json); calls on one token from two threads are within the '
+    'intended use (LoginReactor calls join on the networking thread of each '
+    'Connection, and one token may be given to several Connections)',
     'the in-process adapter is bound to real HTTP in the thorough tier: '
     'both transports must yield the same normalised observation for every '
     'transition (count reported as adapter_vs_http_divergences)',
@@ -102,10 +152,12 @@ TABLE = {
     'invalidate':       ('auth', 'invalidate', 204),
     'sign_out':         ('auth', 'signout', 204),
     'join':             ('session', 'join', 204),
+    'join-b':           ('session', 'join', 204),   # (concurrent section only)
 }
 A_USER, A_PASS = 'user1', 'pw1é"\\ x'
 S_USER, S_PASS = 'so-user', 'so-pass'
 SERVER_ID = '-7c9d5b0044c130109a5d7b5fb5c317c02b4e28c1'
+SERVER_ID_B = '4ed1f46bbe04bc756bcb17c0c7ce3e4632f06a48'   # op 'join-b'
 
 VALID = {
     'accessToken': 'AT1', 'clientToken': 'CT1',
@@ -154,7 +206,45 @@ BODIES_THOROUGH = [
     ('json-truncated', b'{"error": "x", "errorMess', JS),
     ('nonutf8', b'\xff\xfe\x00\x9f garbage \xc3', 'application/octet-stream'),
 ]
-BODY = dict((k, (b, c)) for k, b, c in BODIES + BODIES_THOROUGH)
+
+# Complete error objects whose strings hold text that template engines trip
+# over (the service's text is DATA: it must come back verbatim in the error
+# fields whatever it looks like).  One such string per body, in one of the
+# three positions, the other two fields plain.
+META = [
+    ('brace-index', '{0}'),
+    ('brace-empty', '{}'),
+    ('brace-name', '{name}'),
+    ('brace-open', '{'),
+    ('brace-close', '}'),
+    ('percent-s', '%s'),
+    ('percent-map', '%(x)s'),
+    ('percent', '%'),
+    ('backslash', 'back\\slash\\'),
+    ('newline', 'first line\nsecond\r\n\tline'),
+    ('non-ascii', 'Ошибка 错误 א \U0001F600 é'),
+    ('empty-string', ''),
+    ('long', ''.join('%04d|' % i for i in range(410))[:2049]),
+]
+META_PLAIN = {'error': 'ForbiddenOperationException',
+              'errorMessage': 'Invalid credentials.',
+              'cause': 'UserMigratedException'}
+META_POSITIONS = ('error', 'errorMessage', 'cause')
+
+
+def _meta_bodies():
+    out = []
+    for pos in META_POSITIONS:
+        for name, text in META:
+            obj = dict(META_PLAIN)
+            obj[pos] = text
+            out.append(('errobj %s=%s' % (pos, name), _j(obj), JS))
+    return out
+
+
+BODIES_META = _meta_bodies()
+META_STATUSES_QUICK = (403, 500)
+BODY = dict((k, (b, c)) for k, b, c in BODIES + BODIES_THOROUGH + BODIES_META)
 
 QUICK_STATUSES = (200, 400, 403, 404, 500)
 THOROUGH_STATUSES = (200, 400, 401, 403, 404, 405, 415, 429, 500, 502, 503)
@@ -180,6 +270,10 @@ def replies_for(ctx):
     for st in statuses:
         for label, _b, _c in bodies:
             pairs.append((st, label))
+    for st in (statuses if ctx.thorough else META_STATUSES_QUICK):
+        if st >= 400:
+            for label, _b, _c in BODIES_META:
+                pairs.append((st, label))
     random.Random(ctx.seed * 7919 + 1).shuffle(pairs)
     return pairs
 
@@ -263,14 +357,15 @@ def ref_expect_request(op, st):
         return ('post', p, False)
     if op == 'sign_out':
         return ('post', [{'username': S_USER, 'password': S_PASS}], False)
-    if op == 'join':
+    if op in ('join', 'join-b'):
         if not ref_authenticated(st):
             return ('refuse', ('YggdrasilError',))
+        sid = SERVER_ID if op == 'join' else SERVER_ID_B
         return ('post', [
             {'accessToken': at, 'selectedProfile': {'id': pid, 'name': pn},
-             'serverId': SERVER_ID},
+             'serverId': sid},
             {'accessToken': at, 'selectedProfile': pid,
-             'serverId': SERVER_ID}], False)
+             'serverId': sid}], False)
     raise ToolError('unknown op %r' % (op,))
 
 
@@ -310,6 +405,7 @@ class ScriptAdapter(requests.adapters.BaseAdapter):
             body = b''.join(body)
         self.env.log.append({
             'method': request.method, 'url': request.url,
+            'thread': threading.get_ident(),
             'body': bytes(body),
             'headers': dict((k.lower(), v)
                             for k, v in request.headers.items())})
@@ -517,6 +613,12 @@ class Env(object):
         self.reply = reply
         del self.log[:]
         self.A.uuid.n = 0          # same generated token in every call
+        out = self.invoke(t, op)
+        return {'requests': [dict(r) for r in self.log], 'out': out,
+                'after': self.read(t)}
+
+    def invoke(self, t, op):
+        """The call itself; -> outcome record."""
         try:
             if op == 'authenticate':
                 ret = t.authenticate(A_USER, A_PASS)
@@ -532,6 +634,8 @@ class Env(object):
                 ret = t.sign_out(S_USER, S_PASS)
             elif op == 'join':
                 ret = t.join(SERVER_ID)
+            elif op == 'join-b':
+                ret = t.join(SERVER_ID_B)
             else:
                 raise ToolError('unknown op %r' % (op,))
             out = {'kind': 'return', 'is_true': ret is True,
@@ -546,8 +650,7 @@ class Env(object):
                 for f in ('status_code', 'yggdrasil_error',
                           'yggdrasil_message', 'yggdrasil_cause'):
                     out[f] = getattr(e, f, '<unset>')
-        return {'requests': [dict(r) for r in self.log], 'out': out,
-                'after': self.read(t)}
+        return out
 
     def authenticated(self, t):
         try:
@@ -917,6 +1020,11 @@ def guards(ctx, st, op, pair, obs):
             ctx.cls('error with fields, no cause')
         else:
             ctx.cls('error malformed')
+    if pair[1].startswith('errobj ') and n and o['kind'] == 'raise' and \
+            o['ygg'] and op != 'validate':
+        ctx.cls(C_META)
+        ctx.cls('error text class %s in %s' % (
+            pair[1].split('=', 1)[1], pair[1].split('=', 1)[0][7:]))
     if pair[0] >= 400 and o['kind'] == 'raise' and not o['ygg'] and n:
         ctx.cls('error reply escaped as a foreign exception')
     if pair[0] < 300 and o['kind'] == 'raise' and n and \
@@ -930,7 +1038,10 @@ def guards(ctx, st, op, pair, obs):
         ctx.cls('validate on %s' % ('204' if pair[0] == 204 else 'non-204'))
 
 
+C_META = 'error object whose text holds template metacharacters raised ' \
+    'YggdrasilError'
 REQUIRED_CLASSES = (
+    C_META,
     'state authenticated', 'state not authenticated',
     'join contacted the service', 'join refused without contact',
     'refresh refused without contact', 'validate refused without contact',
@@ -1034,8 +1145,170 @@ def http_norm(summ):
             s, after)
 
 
+# -- two threads using tokens at the same time -------------------------------
+# LoginReactor calls auth_token.join on the networking thread of its
+# Connection: two Connections given the same token (or two user threads) make
+# overlapping calls on ONE token object.  "Each operation posts the documented
+# payload" is per call: the body posted by a call must be built from that
+# call's own argument whatever another thread does in between.
+RACE_MODULES = ('minecraft.authentication',)
+STATE_B = ('u1', 'at1', 'ct1', 'pid1', 'pn1')
+#              tokens     operations               reply           bound
+RACE_CASES = [
+    ('shared',   ('join', 'join-b'),      (204, 'empty'),      2),
+    ('shared',   ('join', 'join-b'),      (403, 'error-full'), 1),
+    ('separate', ('join', 'join-b'),      (204, 'empty'),      1),
+    ('shared',   ('join', 'validate'),    (204, 'empty'),      1),
+    ('shared',   ('join', 'invalidate'),  (204, 'empty'),      1),
+]
+RACE_CASES_THOROUGH = [
+    ('shared',   ('join', 'join-b'),      (204, 'empty'),      3),
+    ('shared',   ('join', 'join-b'),      (403, 'error-full'), 2),
+    ('separate', ('join', 'join-b'),      (204, 'empty'),      2),
+    ('shared',   ('join', 'validate'),    (204, 'empty'),      2),
+    ('shared',   ('join', 'invalidate'),  (204, 'empty'),      2),
+    ('shared',   ('join', 'join'),        (204, 'empty'),      2),
+    ('shared',   ('join', 'join-b'),
+     (500, 'errobj errorMessage=brace-index'),                 2),
+    ('separate', ('join', 'join-b'),      (403, 'error-full'), 2),
+    ('shared',   ('join', 'sign_out'),    (204, 'empty'),      2),
+    ('shared',   ('validate', 'invalidate'), (204, 'empty'),   2),
+    ('shared',   ('validate', 'validate'), (403, 'error-full'), 2),
+    ('shared',   ('invalidate', 'join-b'), (404, 'json-null'), 2),
+]
+RACE_OPS = ('join', 'join-b', 'validate', 'invalidate', 'sign_out')
+
+
+def race_body(W, params):
+    use_repo()
+    tokens, ops = params['tokens'], list(params['ops'])
+    pair = tuple(params['reply'])
+    reply = reply_of(pair)
+    if len(ops) != 2 or any(o not in RACE_OPS for o in ops):
+        raise ToolError('race of %r: only operations that store nothing '
+                        'have a schedule-independent expectation' % (ops,))
+    states = [INIT, INIT if tokens == 'shared' else STATE_B]
+    viol = []
+    with Env('adapter') as env:
+        # (requests, outcome, the five stored fields): attributes a token
+        # keeps besides them are its own business and may depend on order
+        # bodies compared as JSON values (key order is not part of it)
+        def five(summ):
+            reqs = []
+            for m, e, b, c in summ[0]:
+                try:
+                    b = ('json', json.dumps(json.loads(b.decode('utf-8')),
+                                            sort_keys=True))
+                except (ValueError, UnicodeDecodeError):
+                    pass
+                reqs.append((m, e, b, c))
+            return (tuple(reqs), summ[1], summ[2][:5])
+        alone = [five(summary(env.call(env.build(states[i]), ops[i], reply)))
+                 for i in (0, 1)]
+        if tokens == 'shared':
+            t = env.build(INIT)
+            toks = [t, t]
+        else:
+            toks = [env.build(states[0]), env.build(states[1])]
+        env.reply = reply
+        del env.log[:]
+        who = {}
+
+        def agent(i):
+            def f():
+                who[threading.get_ident()] = i
+                return env.invoke(toks[i], ops[i])
+            return f
+        got = interleave.race(W, [agent(0), agent(1)])
+        log = [dict(r) for r in env.log]
+        for r in log:
+            if r['thread'] not in who:
+                raise ToolError('request from an unknown thread: %r' % (r,))
+        label = '%s token, %s || %s, reply %d %s' % (
+            'one shared' if tokens == 'shared' else 'two separate',
+            ops[0], ops[1], pair[0], pair[1])
+        outs = []
+        for i in (0, 1):
+            if got[i][0] != 'ok':
+                raise ToolError('agent %d: %s' % (i, got[i][1]))
+            obs = {'requests': [r for r in log if who[r['thread']] == i],
+                   'out': got[i][1], 'after': env.read(toks[i])}
+            other = ops[1 - i]
+            for kind, text in judge(env, states[i], ops[i], reply, obs):
+                viol.append((
+                    '%s: %s' % (ops[i], kind),
+                    '[%s] call %d (%s) while another thread runs %s on %s: %s'
+                    % (label, i + 1, ops[i], other,
+                       'the same token object' if tokens == 'shared'
+                       else 'another token object', text)))
+            summ = five(summary(obs))
+            if summ != alone[i] and not viol:
+                viol.append((
+                    '%s: differs from the same call made alone' % ops[i],
+                    '[%s] call %d (%s) observed (requests, outcome, fields '
+                    'afterwards) = %r; the same call on a token with the '
+                    'same fields and no other thread: %r'
+                    % (label, i + 1, ops[i], summ, alone[i])))
+            outs.append((len(obs['requests']), summ[1][:40]))
+    return {'outcome': outs, 'violations': viol}
+
+
+def race_factory(params):
+    def scenario(prefix, expect, visited=None, budget=0):
+        return interleave.run(lambda W: race_body(W, params), prefix, expect,
+                              budget, modules=RACE_MODULES)
+    return scenario
+
+
+def run_races(ctx, ex):
+    cases = list(RACE_CASES)
+    if ctx.thorough:
+        cases += RACE_CASES_THOROUGH
+    execs = 0
+    listed = []
+    for tokens, ops, pair, bound in cases:
+        params = {'tokens': tokens, 'ops': list(ops), 'reply': list(pair)}
+        res = ex.explore(ctx, race_factory, params, bound,
+                         label='concurrent %s %s ' % (tokens, '||'.join(ops)))
+        execs += res.execs
+        ctx.note_distinct(res.execs)
+        ctx.cls(C_RACE_SHARED if tokens == 'shared' else C_RACE_SEPARATE)
+        if tokens == 'shared' and set(ops) == {'join', 'join-b'}:
+            ctx.cls(C_RACE_JOINS)
+        listed.append({'tokens': tokens, 'ops': list(ops),
+                       'reply': list(pair), 'preemption_bound': bound,
+                       'schedules': res.execs})
+        if res.violations:
+            break
+    ctx.extra['concurrent'] = {
+        'cases': listed, 'schedules_executed': execs,
+        'points': 'every source line of ' + ', '.join(RACE_MODULES)}
+
+
+C_RACE_SHARED = 'two threads operating on one shared token'
+C_RACE_SEPARATE = 'two threads operating on two tokens'
+C_RACE_JOINS = 'two overlapping joins with different server ids on one token'
+
+
 def run(ctx):
     use_repo()
+    ex = explore.Explorer(memo=False)   # forks its workers before all else
+    try:
+        _run(ctx)
+        # (schedules are explored only on a tree whose sequential behaviour
+        # is in order: the oracle of a schedule is the sequential one)
+        if not ctx.violations:
+            run_races(ctx, ex)
+            missing = [c for c in (C_RACE_SHARED, C_RACE_SEPARATE,
+                                   C_RACE_JOINS) if not ctx.classes.get(c)]
+            if missing and not ctx.violations:
+                raise ToolError('vacuous run, classes never hit: %r'
+                                % (missing,))
+    finally:
+        ex.close()
+
+
+def _run(ctx):
     import minecraft.authentication as A
     originals = (A.requests, A.uuid, A.AUTH_SERVER, A.SESSION_SERVER)
     replies = replies_for(ctx)
@@ -1097,6 +1370,19 @@ def run(ctx):
 
 def replay(ctx, case):
     use_repo()
+    if 'choices' in case:
+        x = race_factory(case['params'])(list(case['choices']), None, None,
+                                         'replay')
+        res = x.result or {}
+        viol = list(res.get('violations', ()))
+        if x.failure is not None:
+            viol.append((x.failure[0], '%s: %s' % x.failure))
+        p = case['params']
+        label = 'concurrent %s %s ' % (p['tokens'], '||'.join(p['ops']))
+        for key, what in viol:
+            ctx.violation(label + key, what, case)
+        ctx.count()
+        return
     kind = case.get('kind')
     if kind == 'authenticated':
         with Env('adapter') as env:
